@@ -44,7 +44,22 @@ def gen(rel):
                     if isinstance(x, ast.FunctionDef):
                         yield f"{st.name}.{x.name}", x
     for fi, (key, fn) in enumerate(all_funcs(tree)):
-        ss = [s for s in E.sites(fn) if not s[1].startswith("swap-")]
+        def subtle(site):
+            idx, what, mut = site
+            node = nodes0[idx]
+            if what in ("attr-rename", "return-none", "argswap", "drop-kw", "if-swap") or what.startswith("swap-"):
+                return False
+            if what == "binswap":
+                return isinstance(node.op, (ast.Sub, ast.Div, ast.Pow, ast.MatMult, ast.Mod, ast.FloorDiv))
+            if what == "const":
+                return isinstance(node.value, (int, float, bool))
+            if what.startswith("del-"):
+                st_ = getattr(node, mut[1])[mut[2]]
+                return isinstance(st_, (ast.AugAssign, ast.Expr)) and not (isinstance(st_, ast.Expr) and isinstance(st_.value, ast.Call)
+                                                                          and ast.unparse(st_.value.func).startswith(("log.", "warnings.")))
+            return True
+        nodes0 = list(ast.walk(fn))
+        ss = [s for s in E.sites(fn) if subtle(s)]
         rnd.shuffle(ss)
         kept = 0
         for idx, what, mut in ss:
@@ -96,6 +111,30 @@ def run(job):
         shutil.rmtree(d, ignore_errors=True)
 
 
+def suite(job):
+    """Does the pinned suite still pass with this mutant?  (-x: stop at the first failure among the stable tests)"""
+    rel, key, what, descr, src, props = job
+    base = json.load(open("/root/.vp/BASELINE.json"))
+    d = tempfile.mkdtemp(prefix="mss_")
+    try:
+        for item in ("beyond", "tests", "setup.cfg", "setup.py", "README.rst"):
+            srcp = os.path.join("/repo", item)
+            (shutil.copytree if os.path.isdir(srcp) else shutil.copy)(srcp, os.path.join(d, item))
+        open(os.path.join(d, rel), "w").write(src)
+        desel = []
+        for t in base["always_fail"]:
+            mod, name = t.split("::", 1)
+            desel += ["--deselect", mod.replace(".", "/") + ".py::" + name]
+        env = dict(os.environ, PYTHONPATH=d, PYTHONDONTWRITEBYTECODE="1")
+        cmd = [PY, "-m", "pytest", "-q", "-p", "no:cacheprovider", "--timeout=900", "--no-cov", "-x", "-n", "3"] + desel
+        r = subprocess.run(cmd, cwd=d, env=env, capture_output=True, text=True)
+        tail = r.stdout.strip().splitlines()[-1] if r.stdout.strip() else ""
+        ok = r.returncode == 0 and " failed" not in tail and " error" not in tail
+        return rel, key, what, descr, "suite-passes" if ok else "suite-fails"
+    finally:
+        shutil.rmtree(d, ignore_errors=True)
+
+
 if __name__ == "__main__":
     fp = file_props()
     files = [f for f in sorted(fp) if ONLY in f]
@@ -109,6 +148,10 @@ if __name__ == "__main__":
             n += 1
             if not fired:
                 surv.append((rel, key, what, descr))
-    for s in surv:
-        print("SURVIVED", *s)
-    print(f"{n} mutants (not E8-equivalent), {n - len(surv)} detected, {len(surv)} survived")
+    print(f"{n} mutants (not E8-equivalent), {n - len(surv)} detected by a check, {len(surv)} not", flush=True)
+    json.dump([(j[0], j[1], j[2], j[3], j[4]) for j in jobs if (j[0], j[1], j[2], j[3]) in set(surv)], open("/tmp/ms_survivors.json", "w"))
+    if os.environ.get("MS_SUITE"):
+        todo = [j for j in jobs if (j[0], j[1], j[2], j[3]) in set(surv)]
+        with ProcessPoolExecutor(int(os.environ.get("MS_SUITE"))) as ex:
+            for rel, key, what, descr, verdict in ex.map(suite, todo):
+                print(("GAP " if verdict == "suite-passes" else "killed-by-suite ") + f"{rel} {key} {what} {descr}", flush=True)
